@@ -64,6 +64,14 @@ def install_fs(fc_module, fs, vtime=None):
     fc_module.open = fs.open
     fc_module.os = fs.os
     fc_module.time = vtime or VTime()
+    # the store layer above the cache does no file-system work of its own today; should it start to (a clean-up pass
+    # on open, a marker file, ...), that work must meet the same simulated disk
+    import sys
+    for name in ("klongpy.db.sys_fn_kvs", "klongpy.db.df_cache"):
+        mod = sys.modules.get(name)
+        if mod is not None:
+            mod.os = fs.os
+            mod.open = fs.open
 
 
 def sim_cache(cache, world):
